@@ -124,6 +124,7 @@ def main(argv: List[str]) -> int:
             "handlers_under_contract": cov["functions"],
             "use_site_sweep_cases": sweep,
             "smt_by_backend": cov["backends"],
+            "cross_check": cov.get("cross_check"),
             "samples": e.samples[:3] + cov["samples"][:3],
         }
     )
